@@ -35,7 +35,7 @@ pub struct Case {
     pub seed: u64,
 }
 
-fn bytes_of(res: &FheUint<Vec<u8>, u32>) -> Vec<i64> {
+pub fn bytes_of(res: &FheUint<Vec<u8>, u32>) -> Vec<i64> {
     res.to_ref().data().raw().to_vec()
 }
 
